@@ -94,6 +94,7 @@ struct Peer {
     app_closed: bool,
     closed_at_ms: Option<u64>,
     closed_by: &'static str,
+    token_expire_s: u64,
     connected_seen: bool,
     /// ClientConnected events seen for this generation; a second one means the server re-established
     /// a session from stale (delayed / duplicated) handshake datagrams of a still valid token, which
@@ -144,6 +145,8 @@ struct World {
     key: [u8; 32],
     secure: bool,
     timeout_s: i32,
+    /// life time of the connect tokens of this run: it bounds the handshake, never the session established with it
+    token_life_s: u64,
     resend_ms: u64,
     /// per id: last event was Connected?
     ev_state: HashMap<u64, bool>,
@@ -187,7 +190,7 @@ impl World {
         let front_addr = self.front.local_addr().map_err(|e| e.to_string())?;
         let now = Duration::from_millis(self.now_ms);
         let auth = if self.secure {
-            let m = nsim::mint(r, self.now_ms / 1000, self.protocol, 600, id, self.timeout_s, &[front_addr], None, &self.key);
+            let m = nsim::mint(r, self.now_ms / 1000, self.protocol, self.token_life_s, id, self.timeout_s, &[front_addr], None, &self.key);
             ClientAuthentication::Secure { connect_token: m.token }
         } else {
             ClientAuthentication::Unsecure {
@@ -209,6 +212,7 @@ impl World {
             app_closed: false,
             closed_at_ms: None,
             closed_by: "",
+            token_expire_s: self.now_ms / 1000 + self.token_life_s,
             connected_seen: false,
             connect_events: 0,
             resurrected: false,
@@ -582,6 +586,7 @@ fn one_run_inner(ctx: &Ctx, out: &mut Outcome, run_seed: u64) {
         key,
         secure,
         timeout_s,
+        token_life_s: if secure && (run_seed >> 7) % 3 == 0 { 2 + (run_seed >> 11) % 7 } else { 600 },
         resend_ms,
         ev_state: HashMap::new(),
         server_closed: HashMap::new(),
@@ -1009,6 +1014,16 @@ fn one_run_inner(ctx: &Ctx, out: &mut Outcome, run_seed: u64) {
                 p.closed_at_ms = Some(w.now_ms);
                 p.closed_by = "denied_by_full_server";
                 out.count("clients_denied_by_full_server");
+            }
+            // so is a client whose short-lived token ran out before the handshake got through
+            if !p.app_closed && !p.connected_seen && format!("{:?}", p.transport.disconnect_reason()).contains("ConnectTokenExpired") {
+                p.app_closed = true;
+                p.closed_at_ms = Some(w.now_ms);
+                p.closed_by = "token_expired_before_connecting";
+                out.count("clients_whose_token_expired_before_connecting");
+            }
+            if p.connected_seen && !p.app_closed && w.now_ms / 1000 > p.token_expire_s && w.token_life_s < 600 {
+                out.count("session_ticks_beyond_token_life");
             }
             // a stale (genuine, but overtaken by events) ConnectionDenied must not end a session that is up
             if w.stale_denied_shown.contains_key(&k) && !p.app_closed && p.connected_seen && format!("{:?}", p.transport.disconnect_reason()).contains("ConnectionDenied") {
